@@ -289,6 +289,7 @@ package x509
 //@ requires opts != nil
 //@ requires opts.Roots != nil
 //@ requires candidate != nil
+//@ requires forall j int :: 0 <= j && j < len(currentChain) ==> currentChain[j] != nil
 //@ ensures [a-candidate-is-given-up-unchecked-only-when-already-in-the-chain-or-out-of-budget] !cs.called ==> (eq.called && eq.res) || (sigChecks != nil && *sigChecks > maxChainSignatureChecks)
 //@ ensures [a-candidate-that-signed-the-certificate-is-checked-for-validity] cs.called && cs.res == nil ==> iv.called
 //@ at cs assert [the-candidate-must-have-signed-this-certificate] cs.parent == candidate && cs.c == c
@@ -307,6 +308,7 @@ package x509
 //@ site buildChains$1#1 as cr
 //@ site buildChains$1#2 as ci
 //@ requires c != nil && opts != nil && opts.Roots != nil
+//@ requires forall j int :: 0 <= j && j < len(currentChain) ==> currentChain[j] != nil
 //@ ensures [both-pools-are-searched-for-issuers-of-this-certificate] pr.called && pr.cert == c && (opts.Intermediates != nil ==> pi.called && pi.cert == c)
 //@ ensures [chains-or-an-error] len(chains) == 0 ==> err != nil
 //@ at cr assert [every-root-found-by-name-is-considered-as-a-root] cr.certType == rootCertificate && cr.candidate == opts.Roots.certs[rootNum]
@@ -330,3 +332,10 @@ package x509
 //@ ensures [an-issuer-is-never-valid-for-an-empty-chain] (certType == intermediateCertificate || certType == rootCertificate) && len(currentChain) == 0 ==> result != nil
 //@ ensures [with-the-logs-options-only-naming-and-the-ca-bit-can-refuse] old(opts.DisableTimeChecks) && old(opts.DisableCriticalExtensionChecks) && old(opts.DisableNameConstraintChecks) && old(opts.DisablePathLenChecks) && result != nil ==> (beq.called && !beq.res) || len(currentChain) == 0 || (certType == intermediateCertificate && (!old(c.BasicConstraintsValid) || !old(c.IsCA)))
 //@ at beq assert [issuer-name-of-the-child-against-subject-name-of-this-certificate-byte-for-byte] beq.a == currentChain[len(currentChain) - 1].RawIssuer && beq.b == c.RawSubject
+
+//@ func appendToFreshChain
+//@ props C02
+//@ arith int
+//@ pure
+//@ fresh result
+//@ ensures [the-chain-so-far-then-the-new-certificate] len(result) == len(chain) + 1 && result[len(chain)] == cert && (forall j int :: 0 <= j && j < len(chain) ==> result[j] == chain[j])
